@@ -1,11 +1,11 @@
 import Abasic.Props.C03All
 /-
-  C03 (leftover a) — READ into array cells.
+  C03 — READ into array cells, inside the unified reference machine.
 
-  The reference machine of Ref/Stmt3.lean covers `READ x, y$, …` (scalar
-  targets, `RStmt3.readS`).  The interpreter also accepts array cells as
-  targets: `READ A(I), B$(2)`.  READ OFF THE CODE (`readLoop`, Stmt.lean): for
-  each target, in this order,
+  `RStmt3.readS` (Ref/Stmt3.lean) takes a non-empty list of targets
+  (`RTarget`): scalar names and array cells `name(e₁, …, eₖ)` in any mixture,
+  `READ x, A(I), B$(2)`.  READ OFF THE CODE (`readLoop`, Stmt.lean): for each
+  target, in this order,
     1. the target is parsed — `parseLValue`: the name and, behind `(`, the
        subscripts, which are EVALUATED NOW (left to right; this may call
        functions, draw random numbers, create arrays that are read);
@@ -18,17 +18,25 @@ import Abasic.Props.C03All
     4. the value is stored — `assignValue`, the same store as LET: the kind
        check against the name, auto-dimension (11 per subscript) when the array
        does not exist, BAD SUBSCRIPT beyond the dimensions.
-  `readCellSpec` is that, over the reference state `RState3` (`evalIdx` and
-  `storeCell` are the subscript evaluation and the store of `LET a(…) = e` in
-  Ref/Stmt3.lean); `readTargetsSpec` runs a list of targets — scalars and
-  cells — in order.
+  `readCellSpec` / `readScalarSpec` (Ref/Stmt3.lean) are that, over the reference
+  state `RState3`; `readTargetsSpec` runs a list of targets in order and IS the
+  reference step of `readS` (`readS_exec`).
 
-  PROVED: `read_cell_refines` (one cell target of the READ loop, whatever
-  follows it), `read_stmt_refines` (the statement `READ name(idx…)` with one cell
-  target as one statement activation, in the format `Outcome3` of the statement
-  theorem of C03All — `RStmt3` itself is a model file and is not extended),
-  `read_target_refines` / `read_targets_refines` (the READ loop over a
-  non-empty list of targets, scalars and cells mixed, against `readTargetsSpec`).
+  The refinement proofs live in Proofs/Stmt3Arr.lean (`read_cell_refines`,
+  `read_target_refines`, `read_targets_refines`, `read_ok`) and are part of
+  `stmt_ok`: `stmt3_refines`, `turn3_refines`, `run3_refines`,
+  `run3_refines_steps`, `run3_ends`, `run3_fails`, `safeRun_of_static`
+  (Props/C03All.lean) hold for the extended machine with unchanged statements.
+  The side conditions on the new targets are in `sdepth3` (`targetsDepth`: the
+  depth of the subscripts) and `ResolvedS` (`ResolvedTargets`).
+
+  HERE: the statement-level results under their earlier names
+  (`read_cell_refines`, `read_stmt_refines`, `read_target_refines`,
+  `read_targets_refines`); `readS_exec`; `readS_scalar_exec` (on scalar targets
+  the reference step is the `readAll` of the earlier layers: the old READ is
+  `readS (scalarTargets xs)`); `readS_refines` (`stmt3_refines` at READ); and a
+  non-vacuity example (`Demo4`): a program reading into cells, through
+  `run3_ends`, and by computation on the model.
 -/
 set_option linter.unusedSectionVars false
 
@@ -38,55 +46,59 @@ open Abasic.Stmt2L (accept_end coerce_matches coerce_err readLoop_unfold)
 
 variable {F : Type} [NumOps F]
 
-/-! ### the spec -/
+/-! ### the reference step of READ -/
 
-/-- `READ name(idx…)`: one cell target -/
-def readCellSpec (items : List (Nat × DataElement F)) (r : RState3 F) (name : Str) (idx : List (Expr2 F)) :
-    RState3 F × Ctl2 :=
-  match evalIdx r idx with
-  | .error err => (r, .error err)
-  | .ok (index, r1) =>
-    match items[r1.data]? with
-    | none => (r1, .error .outOfData)
-    | some (ln, d) =>
-      match Value.coerceFromData name d with
-      | .error e => ({ r1 with data := r1.data + 1 }, .errorAt e ln)
-      | .ok v =>
-        match storeCell name index v r1.arrays with
-        | .error err => ({ r1 with data := r1.data + 1 }, .error err)
-        | .ok arrs => ({ r1 with data := r1.data + 1, arrays := arrs }, .next)
+/-- the reference step of `READ t₁, …` is `readTargetsSpec` -/
+theorem readS_exec (items : List (Nat × DataElement F)) (n j : Nat) (r : RState3 F) (ts : List (RTarget F)) :
+    (RStmt3.readS ts).exec items n j r = readTargetsSpec items r ts := rfl
 
-/-- the tokens of a cell target -/
-def cellToks (name : Str) (idx : List (Expr2 F)) : List (Token F) :=
-  .symbol name :: .kw .LeftParen :: (renderArgs idx ++ [.kw .RightParen])
+/-- **The scalar-only READ is unchanged**: on a list of scalar targets the
+    reference step is the `readAll` of Ref/Stmt2.lean, as before the extension. -/
+theorem readS_scalar_exec (items : List (Nat × DataElement F)) (n j : Nat) : ∀ (xs : List Str) (r : RState3 F),
+    (RStmt3.readS (scalarTargets xs)).exec items n j r =
+      ({ r with vars := (readAll items xs r.vars r.data).1, data := (readAll items xs r.vars r.data).2.1 },
+       (readAll items xs r.vars r.data).2.2)
+  | [], r => rfl
+  | x :: rest, r => by
+    rw [readS_exec]
+    show (match readTargetSpec items r (.scalar x) with
+          | (r', .next) => readTargetsSpec items r' (scalarTargets rest)
+          | y => y) = _
+    simp only [readTargetSpec, readScalarSpec, readAll]
+    cases items[r.data]? with
+    | none => rfl
+    | some lnd =>
+      obtain ⟨ln, d⟩ := lnd
+      dsimp only
+      cases Value.coerceFromData x d with
+      | error e => rfl
+      | ok v =>
+        dsimp only
+        have ih := readS_scalar_exec items n j rest { r with data := r.data + 1, vars := alSet x v r.vars }
+        rw [readS_exec] at ih
+        rw [ih]
 
-/-- one round of the READ loop, with what follows it as a parameter -/
-def readBody (ev : Evals F) (K : M F Unit) : M F Unit := do
-  let lv ← parseLValue ev
-  match ← nextDataElement with
-  | none => fail .outOfData
-  | some e =>
-    let v ← liftE (Value.coerceFromData lv.name e)
-    assignValue lv v
-    K
+/-- the rendering of scalar targets is the rendering of the names -/
+theorem renderRTargets_scalar : ∀ xs : List Str, renderRTargets (F := F) (scalarTargets xs) = renderTargets xs
+  | [] => rfl
+  | [_] => rfl
+  | x :: y :: rest => by
+    have ih : renderRTargets (F := F) (scalarTargets (y :: rest)) = _ := renderRTargets_scalar (y :: rest)
+    show [Token.symbol x] ++ Token.kw .Comma :: renderRTargets (scalarTargets (y :: rest)) = _
+    rw [ih]
+    rfl
 
-theorem readLoop_body (ev : Evals F) (k : Nat) :
-    readLoop ev (k + 1) = readBody ev (accept .Comma >>= fun b => if b then readLoop ev k else pure ()) := rfl
+/-- scalar targets need no side conditions -/
+theorem scalar_side (fns : List (Str × FnDefSpec F)) : ∀ xs : List Str,
+    ResolvedTargets fns (scalarTargets xs) ∧ targetsDepth fns (scalarTargets xs) = 0
+  | [] => ⟨trivial, rfl⟩
+  | x :: rest => by
+    obtain ⟨h1, h2⟩ := scalar_side fns rest
+    refine ⟨⟨trivial, h1⟩, ?_⟩
+    show max 0 (targetsDepth fns (scalarTargets rest)) = 0
+    rw [h2]; rfl
 
-/-- a run of a READ round from `σ` against the spec's result; on success the run
-    continues with `K` in a state `τ` in `Sync` with the new reference state, the
-    cursor behind the target -/
-def ReadCellOK (p : RProgram3 F) (σ : St F) (pre tgt rest : List (Token F)) (K : M F Unit) (res : Res F Unit) :
-    RState3 F × Ctl2 → Prop
-  | (r', .next) => ∃ τ, res = K τ ∧ Sync p r' τ ∧ Start σ τ ∧ At τ (pre ++ tgt) rest
-  | (_, .error e) => e ≠ .dataTypeMismatch ∧ ErrFrom σ e res
-  | (_, .errorAt e ln) => e = .dataTypeMismatch ∧
-      ∃ σ' i, res = .err { err := e } σ' ∧ σ'.dataLoc = some { line := some ln, idx := i } ∧ σ'.out = σ.out ∧
-        σ'.nesting = σ.nesting
-  | _ => True
-
-theorem start_data {σ τ : St F} (h : Start σ τ) (d : Option (DataIter F)) : Start σ { τ with data := d } :=
-  ⟨⟨h.kept.lines, h.kept.warnings, h.kept.tracing, h.kept.nesting, h.kept.state⟩, h.out, h.fns, h.line⟩
+/-! ### the statement-level results (proved in Proofs/Stmt3Arr.lean) -/
 
 /-- **read_cell_refines.**  One cell target `name(idx…)` of a READ: the model's
     READ round is `readCellSpec` — subscripts first, then the item, the
@@ -98,139 +110,39 @@ theorem read_cell_refines {p : RProgram3 F} {σ : St F} {r : RState3 F} (hS : Sy
     (hAt : At σ pre (.symbol name :: .kw .LeftParen :: (renderArgs idx ++ (.kw .RightParen :: rest))))
     (K : M F Unit) :
     ReadCellOK p σ pre (cellToks name idx) rest K (readBody (evalN fuel) K σ)
-      (readCellSpec (allData3 p) r name idx) := by
-  have hAt1 := at_mv1 hAt (σ.reads + 1)
-  have hst1 : Start σ (mv σ 1 (σ.reads + 1)) := start_mv _ _ _
-  have hrun : readBody (evalN fuel) K σ =
-      (optionalArrayIndex (evalN fuel) >>= fun ix =>
-        (nextDataElement >>= fun o =>
-          match o with
-          | none => fail .outOfData
-          | some e =>
-            liftE (Value.coerceFromData name e) >>= fun v =>
-              assignValue { name := name, index := ix } v >>= fun _ => K)) (mv σ 1 (σ.reads + 1)) := by
-    unfold readBody parseLValue
-    rw [bind_assoc', bind_ok (next_eq hAt)]
-    show ((optionalArrayIndex (evalN fuel) >>= fun ix => pure ({ name := name, index := ix } : LValue)) >>= _) _ = _
-    rw [bind_assoc']
-    rfl
-  rw [hrun]
-  have hO := optIdx3_run (hS.mv 1 (σ.reads + 1)) idx fuel _ rest hres hd hn hAt1
-  cases hev : foldIdx callFuel r.env idx with
-  | error err =>
-    rw [hev] at hO
-    have hsp : readCellSpec (allData3 p) r name idx = (r, .error err) := by
-      simp only [readCellSpec, evalIdx, hev]
-    rw [hsp]
-    exact ⟨hO.1, (hO.2.bind).start hst1⟩
-  | ok q =>
-    obtain ⟨is, env'⟩ := q
-    rw [hev] at hO
-    obtain ⟨τ, hσ1, hSτ, hstτ, hAtτ, harr⟩ := hO
-    rw [bind_ok hσ1]
-    have hst : Start σ τ := hst1.trans hstτ
-    have hM := hSτ.mem
-    have hdat : DataRel3 p r.data τ.data := hM.data
-    cases hc : (allData3 p)[r.data]? with
-    | none =>
-      obtain ⟨it', hnd⟩ := nextData_none hSτ.env.lines hSτ.wf hdat hc
-      have hsp : readCellSpec (allData3 p) r name idx = (r.put env', .error .outOfData) := by
-        simp only [readCellSpec, evalIdx, hev, RState3.put, hc]
-      rw [hsp, bind_ok hnd]
-      exact ⟨by simp, errFrom_at (start_data hst _) rfl⟩
-    | some lnd =>
-      obtain ⟨ln, d⟩ := lnd
-      obtain ⟨it', i, hnd, hrel, hdl⟩ := nextData_some hSτ.env.lines hSτ.wf hdat hc
-      rw [bind_ok hnd]
-      dsimp only
-      cases hco : Value.coerceFromData name d with
-      | error e =>
-        have hsp : readCellSpec (allData3 p) r name idx =
-            ({ r.put env' with data := r.data + 1 }, .errorAt e ln) := by
-          simp only [readCellSpec, evalIdx, hev, RState3.put, hc, hco]
-        rw [hsp]
-        refine ⟨coerce_err hco, _, i, ?_, hdl, hst.out, hst.kept.nesting⟩
-        simp only [liftE]
-        rfl
-      | ok v =>
-        have hm := coerce_matches hco
-        simp only [liftE]
-        show ReadCellOK p σ pre _ rest K
-          ((assignValue { name := name, index := some is } v >>= fun _ => K) ({ τ with data := some it' } : St F)) _
-        have hav : assignValue (F := F) { name := name, index := some is } v ({ τ with data := some it' } : St F) =
-            arraySet name is v ({ τ with data := some it' } : St F) := by
-          show (warnUndeclaredArray name >>= fun _ => arraySet name is v) _ = _
-          rw [bind_ok (Stmt2L.warnUndeclared_off name ({ τ with data := some it' } : St F) hSτ.env.warnings)]
-        have hA := Stmt2L.arraySet_run name is v ({ τ with data := some it' } : St F)
-          (by intro k a hk
-              have hk' : alGet k τ.arrays = some a := hk
-              rw [hM.arrays] at hk'
-              exact hSτ.inv.arrs k a hk')
-        have hcsτ : ∀ x, storeCell name is v env'.arrays = x →
-            Stmt2L.cellStore name is v ({ τ with data := some it' } : St F).arrays = x := by
-          intro x hx
-          rw [← storeCell_eq]
-          show storeCell name is v τ.arrays = x
-          rw [harr]; exact hx
-        cases hcs : storeCell name is v env'.arrays with
-        | error err =>
-          rw [hcsτ _ hcs] at hA
-          obtain ⟨hnd', σ', hσ', hl, ho⟩ := hA
-          have hsp : readCellSpec (allData3 p) r name idx =
-              ({ r.put env' with data := r.data + 1 }, .error err) := by
-            simp only [readCellSpec, evalIdx, hev, RState3.put, hc, hco, hcs]
-          rw [hsp]
-          have hnn := (((rns_arraySet name is v).at _).2 _ _ hσ').1
-          refine ⟨hnd', ErrFrom.start (σ1 := ({ τ with data := some it' } : St F)) ?_ (start_data hst _)⟩
-          refine ⟨{ err := err }, σ', ?_, rfl, ho, by rw [hl], hnn, Or.inl rfl⟩
-          exact bind_err (hav.trans hσ')
-        | ok arrs =>
-          rw [hcsτ _ hcs] at hA
-          have hsp : readCellSpec (allData3 p) r name idx =
-              ({ r.put env' with data := r.data + 1, arrays := arrs }, .next) := by
-            simp only [readCellSpec, evalIdx, hev, RState3.put, hc, hco, hcs]
-          rw [hsp]
-          refine ⟨{ τ with data := some it', arrays := arrs }, ?_, ?_, ?_, ?_⟩
-          · exact bind_ok (hav.trans hA)
-          · exact {
-              wf := hSτ.wf
-              env := ⟨hSτ.env.lines, hSτ.env.warnings, hSτ.env.tracing⟩
-              mem := { vars := hM.vars, arrays := rfl, rng := hM.rng, loops := hM.loops, stack := hM.stack
-                       data := hrel, out := hM.out, fns := ⟨hM.fns.undef, hM.fns.defd⟩, fnLines := hM.fnLines }
-              inv := ⟨hSτ.inv.typed, Stmt2L.cellStore_ok (by rw [← storeCell_eq]; exact hcs) hSτ.inv.arrs,
-                      hSτ.inv.rng, hSτ.inv.rets⟩
-              bodies := hSτ.bodies }
-          · exact ⟨⟨hst.kept.lines, hst.kept.warnings, hst.kept.tracing, hst.kept.nesting, hst.kept.state⟩,
-              hst.out, hst.fns, hst.line⟩
-          · have : At ({ τ with data := some it', arrays := arrs } : St F)
-                (pre ++ [.symbol name] ++ (.kw .LeftParen :: (renderArgs idx ++ [.kw .RightParen]))) rest :=
-              ⟨hAtτ.1, hAtτ.2⟩
-            simpa only [cellToks, List.append_assoc, List.cons_append, List.nil_append] using this
+      (readCellSpec (allData3 p) r name idx) :=
+  Stmt3L.read_cell_refines hS fuel name idx pre rest hres hd hn hAt K
 
-/-! ### the READ statement with one cell target -/
+/-- one target, scalar or cell -/
+theorem read_target_refines {p : RProgram3 F} {σ : St F} {r : RState3 F} (hS : Sync p r σ) (fuel : Nat)
+    (t : RTarget F) (pre rest : List (Token F)) (hok : TargetOK r.fns fuel σ.nesting t)
+    (hAt : At σ pre (t.toks ++ rest)) (hpost : ∀ t', rest.head? = some t' → t'.isKw .LeftParen = false)
+    (K : M F Unit) :
+    ReadCellOK p σ pre t.toks rest K (readBody (evalN fuel) K σ) (readTargetSpec (allData3 p) r t) :=
+  Stmt3L.read_target_refines hS fuel t pre rest hok hAt hpost K
 
-/-- the control results `readCellSpec` can produce -/
-theorem readCellSpec_ctl (items : List (Nat × DataElement F)) (r : RState3 F) (name : Str) (idx : List (Expr2 F)) :
-    (readCellSpec items r name idx).2 = .next ∨ (∃ e, (readCellSpec items r name idx).2 = .error e) ∨
-      ∃ e ln, (readCellSpec items r name idx).2 = .errorAt e ln := by
-  unfold readCellSpec
-  cases evalIdx r idx with
-  | error err => exact Or.inr (Or.inl ⟨err, rfl⟩)
-  | ok q =>
-    obtain ⟨index, r1⟩ := q
-    dsimp only
-    cases items[r1.data]? with
-    | none => exact Or.inr (Or.inl ⟨_, rfl⟩)
-    | some lnd =>
-      obtain ⟨ln, d⟩ := lnd
-      dsimp only
-      cases Value.coerceFromData name d with
-      | error e => exact Or.inr (Or.inr ⟨e, ln, rfl⟩)
-      | ok v =>
-        dsimp only
-        cases storeCell name index v r1.arrays with
-        | error err => exact Or.inr (Or.inl ⟨err, rfl⟩)
-        | ok arrs => exact Or.inl rfl
+/-- **read_targets_refines.**  The READ loop over a non-empty list of targets —
+    scalars and array cells in any mixture — is `readTargetsSpec`: the targets in
+    order, each one as `readScalarSpec` / `readCellSpec` says, the first failure
+    ending the statement. -/
+theorem read_targets_refines {p : RProgram3 F} (fuel : Nat) (rest : List (Token F)) (hE : StmtEnd rest) :
+    ∀ (ts : List (RTarget F)), ts ≠ [] → ∀ (k : Nat) (σ : St F) (r : RState3 F) (pre : List (Token F)),
+      Sync p r σ → (∀ t ∈ ts, TargetOK r.fns fuel σ.nesting t) → At σ pre (renderRTargets ts ++ rest) →
+      (renderRTargets ts).length < k →
+      ReadCellOK p σ pre (renderRTargets ts) rest (pure ()) (readLoop (evalN fuel) k σ)
+        (readTargetsSpec (allData3 p) r ts) :=
+  Stmt3L.read_targets_refines fuel rest hE
+
+/-- **READ as a statement of the reference machine**: `stmt3_refines` at
+    `READ t₁, …, tₖ` (scalars and cells mixed), the outcome spelled out with
+    `readTargetsSpec`. -/
+theorem readS_refines {p : RProgram3 F} {r : RState3 F} {σ : St F} {n j : Nat} {ss : List (RStmt3 F)}
+    {ts : List (RTarget F)} {fuel : Nat} (h : SReady3 p r σ n j ss (.readS ts) fuel) :
+    Outcome3 p σ n ((preToks3 ss j).length + ((renderRTargets ts).length + 1)) (renderLine3 ss).length
+      (stmtBody (evalN fuel) σ) (readTargetsSpec (allData3 p) r ts).1 (readTargetsSpec (allData3 p) r ts).2 := by
+  have h0 := stmt3_refines h
+  rw [readS_exec] at h0
+  exact h0
 
 /-- **read_stmt_refines.**  The statement `READ name(idx…)` as one statement
     activation, in the format of the statement theorem of C03All (`Outcome3`:
@@ -291,241 +203,138 @@ theorem read_stmt_refines {p : RProgram3 F} {σ : St F} {r : RState3 F} (hS : Sy
   | stop => rcases hctl with h | ⟨_, h⟩ | ⟨_, _, h⟩ <;> cases h
   | resume a b => rcases hctl with h | ⟨_, h⟩ | ⟨_, _, h⟩ <;> cases h
 
-/-! ### lists of targets, scalars and cells mixed: `READ x, A(I), B$(2)` -/
+/-! ### non-vacuity (on the carrier `Unit`, as in C03All.lean): READ into cells through the run theorems
 
-inductive RTarget (F : Type) where
-  | scalar (name : Str)
-  | cell (name : Str) (idx : List (Expr2 F))
+  ```
+  0 READ A(0), X$, B$(0) : PRINT B$(0); X$;
+  10 DATA 0, "S", "T"
+  ```
+  `A(0)` and `B$(0)` do not exist: they are auto-dimensioned by the READ. -/
 
-def RTarget.toks : RTarget F → List (Token F)
-  | .scalar x => [.symbol x]
-  | .cell name idx => cellToks name idx
+namespace Demo4
+open Demo3 (ready3_compile outOf rstep3_next)
 
-def renderRTargets : List (RTarget F) → List (Token F)
-  | [] => []
-  | [t] => t.toks
-  | t :: t' :: rest => t.toks ++ .kw .Comma :: renderRTargets (t' :: rest)
+def nA : Str := ['A']
+def nX : Str := ['X', '$']
+def nB : Str := ['B', '$']
 
-/-- a scalar target (as `readAll` of Ref/Stmt2.lean does it), on `RState3` -/
-def readScalarSpec (items : List (Nat × DataElement F)) (r : RState3 F) (name : Str) : RState3 F × Ctl2 :=
-  match items[r.data]? with
-  | none => (r, .error .outOfData)
-  | some (ln, d) =>
-    match Value.coerceFromData name d with
-    | .error e => ({ r with data := r.data + 1 }, .errorAt e ln)
-    | .ok v => ({ r with data := r.data + 1, vars := alSet name v r.vars }, .next)
+def readStmt : RStmt3 Unit := .readS [.cell nA [.num ()], .scalar nX, .cell nB [.num ()]]
+def printStmt : RStmt3 Unit := .printS [.expr (.cell nB [.num ()]), .semi, .expr (.var nX), .semi]
+def dataStmt : RStmt3 Unit := .dataS [.num (), .str ['S'], .str ['T']]
 
-def readTargetSpec (items : List (Nat × DataElement F)) (r : RState3 F) : RTarget F → RState3 F × Ctl2
-  | .scalar x => readScalarSpec items r x
-  | .cell name idx => readCellSpec items r name idx
+def prog : RProgram3 Unit := [ (0, [readStmt, printStmt]), (10, [dataStmt]) ]
 
-/-- the targets in order; the first failure ends the statement -/
-def readTargetsSpec (items : List (Nat × DataElement F)) : RState3 F → List (RTarget F) → RState3 F × Ctl2
-  | r, [] => (r, .next)
-  | r, t :: rest =>
-    match readTargetSpec items r t with
-    | (r', .next) => readTargetsSpec items r' rest
-    | x => x
+theorem prog_fits : Fits3 prog where
+  wf := ⟨by decide, by intro l hl; simp [prog] at hl; rcases hl with rfl | rfl <;> simp⟩
+  covered := by
+    intro l hl s hs
+    simp [prog] at hl
+    rcases hl with rfl | rfl
+    · simp at hs
+      rcases hs with rfl | rfl
+      · exact ⟨rfl, by simp [readStmt, RStmt3.CoveredB]⟩
+      · exact ⟨rfl, by simp [printStmt, RStmt3.CoveredB, separated3]⟩
+    · simp at hs; subst hs; exact ⟨rfl, by simp [dataStmt, RStmt3.CoveredB]⟩
 
-/-- the side conditions of a target: the subscripts of a cell use names
-    consistently with the function table and fit fuel and nesting cap -/
-def TargetOK (fns : List (Str × FnDefSpec F)) (fuel nesting : Nat) : RTarget F → Prop
-  | .scalar _ => True
-  | .cell _ idx => ResolvedL fns idx ∧ depthArgs fns callFuel idx ≤ fuel ∧
-      nesting + depthArgs fns callFuel idx ≤ Extracted.nestingLimit
+theorem prog_noDef : ∀ l ∈ prog, ∀ s ∈ l.2, ∀ name d, ¬ Defines s name d := by
+  intro l hl s hs name d
+  simp [prog] at hl
+  rcases hl with rfl | rfl
+  · simp at hs
+    rcases hs with rfl | rfl <;> exact id
+  · simp at hs; subst hs; exact id
 
-theorem readTargetSpec_fns (items : List (Nat × DataElement F)) (r : RState3 F) (t : RTarget F) :
-    (readTargetSpec items r t).1.fns = r.fns := by
-  cases t with
-  | scalar x =>
-    simp only [readTargetSpec, readScalarSpec]
-    cases items[r.data]? with
-    | none => rfl
-    | some lnd =>
-      obtain ⟨ln, d⟩ := lnd
-      dsimp only
-      cases Value.coerceFromData x d <;> rfl
-  | cell name idx =>
-    simp only [readTargetSpec, readCellSpec, evalIdx]
-    cases foldIdx callFuel r.env idx with
-    | error err => rfl
-    | ok q =>
-      obtain ⟨index, env'⟩ := q
-      dsimp only
-      cases items[(r.put env').data]? with
-      | none => rfl
-      | some lnd =>
-        obtain ⟨ln, d⟩ := lnd
-        dsimp only
-        cases Value.coerceFromData name d with
-        | error e => rfl
-        | ok v =>
-          dsimp only
-          cases storeCell name index v (r.put env').arrays <;> rfl
+theorem prog_static : Static prog defaultFuel where
+  ok := by
+    intro fns hf
+    have hnone := fnsOf_nil_of_noDef prog_noDef hf
+    refine ⟨fun name d hg => (by rw [hnone name] at hg; cases hg), fun l hl s hs => ?_⟩
+    simp [prog] at hl
+    rcases hl with rfl | rfl
+    · simp at hs
+      rcases hs with rfl | rfl
+      · refine ⟨?_, ?_, ?_⟩
+        · simp only [readStmt, ResolvedS, ResolvedTargets, RTarget.Resolved, ResolvedL, Resolved, and_true]
+        · simp [readStmt, sdepth3, targetsDepth, RTarget.depth, depthArgs, depth2, defaultFuel]
+        · simp [readStmt, sdepth3, targetsDepth, RTarget.depth, depthArgs, depth2, Extracted.nestingLimit]
+      · refine ⟨?_, ?_, ?_⟩
+        · simp only [printStmt, ResolvedS, ResolvedItems, ResolvedL, Resolved, and_true, hnone, true_and]
+          decide
+        · simp [printStmt, sdepth3, itemsDepth3, edepth, depthArgs, depth2, defaultFuel]
+        · simp [printStmt, sdepth3, itemsDepth3, edepth, depthArgs, depth2, Extracted.nestingLimit]
+    · simp at hs; subst hs
+      simp [dataStmt, ResolvedS, sdepth3]
 
-/-- one target, scalar or cell -/
-theorem read_target_refines {p : RProgram3 F} {σ : St F} {r : RState3 F} (hS : Sync p r σ) (fuel : Nat)
-    (t : RTarget F) (pre rest : List (Token F)) (hok : TargetOK r.fns fuel σ.nesting t)
-    (hAt : At σ pre (t.toks ++ rest)) (hpost : ∀ t', rest.head? = some t' → t'.isKw .LeftParen = false)
-    (K : M F Unit) :
-    ReadCellOK p σ pre t.toks rest K (readBody (evalN fuel) K σ) (readTargetSpec (allData3 p) r t) := by
-  cases t with
-  | cell name idx =>
-    have hAt' : At σ pre (.symbol name :: .kw .LeftParen :: (renderArgs idx ++ (.kw .RightParen :: rest))) := by
-      simpa only [RTarget.toks, cellToks, List.cons_append, List.append_assoc, List.nil_append] using hAt
-    exact read_cell_refines hS fuel name idx pre rest hok.1 hok.2.1 hok.2.2 hAt' K
-  | scalar x =>
-    have hAt' : At σ pre (.symbol x :: rest) := hAt
-    have hM := hS.mem
-    have hO := read_one3 hS.wf (evalN fuel) x σ pre rest r.data hAt' hpost hS.env.lines hM.data K
-    show ReadCellOK p σ pre [.symbol x] rest K _ (readScalarSpec (allData3 p) r x)
-    unfold readScalarSpec
-    cases hc : (allData3 p)[r.data]? with
-    | none =>
-      rw [hc] at hO
-      obtain ⟨σ', hr, hl, ho, hnn⟩ := hO
-      exact ⟨by simp, { err := .outOfData }, σ', hr, rfl, ho, hl, hnn, Or.inl rfl⟩
-    | some lnd =>
-      obtain ⟨ln, d⟩ := lnd
-      rw [hc] at hO
-      dsimp only at hO ⊢
-      cases hco : Value.coerceFromData x d with
-      | error e =>
-        rw [hco] at hO
-        exact ⟨coerce_err hco, hO⟩
-      | ok v =>
-        rw [hco] at hO
-        obtain ⟨it', σ1, hrel, hrun, hσ1⟩ := hO
-        have hm := coerce_matches hco
-        refine ⟨σ1, hrun, ?_, ?_, ?_⟩
-        · rw [hσ1]
-          exact {
-            wf := hS.wf
-            env := ⟨hS.env.lines, hS.env.warnings, hS.env.tracing⟩
-            mem := { vars := by show alSet x v σ.vars = alSet x v r.vars; rw [hM.vars]
-                     arrays := hM.arrays, rng := hM.rng, loops := hM.loops, stack := hM.stack
-                     data := hrel, out := hM.out, fns := ⟨hM.fns.undef, hM.fns.defd⟩, fnLines := hM.fnLines }
-            inv := ⟨Stmt2L.typed_alSet hS.inv.typed hm, hS.inv.arrs, hS.inv.rng, hS.inv.rets⟩
-            bodies := hS.bodies }
-        · rw [hσ1]; exact ⟨⟨rfl, rfl, rfl, rfl, rfl⟩, rfl, rfl, rfl⟩
-        · rw [hσ1]
-          have hAtb : At ({ σ with data := some it', vars := alSet x v σ.vars } : St F) pre (.symbol x :: rest) :=
-            ⟨hAt'.1, hAt'.2⟩
-          exact at_mv1 hAtb _
+/-! #### the reference run -/
 
-theorem toks_head_ne_paren (t : RTarget F) (tl : List (Token F)) :
-    ∀ t', (Token.kw (F := F) .Comma :: tl).head? = some t' → t'.isKw .LeftParen = false := by
-  intro t' ht'
-  simp only [List.head?_cons, Option.some.injEq] at ht'
-  subst ht'
+/-- the subscript `0` -/
+theorem idx0 (r : RState3 Unit) : evalIdx r [.num ()] = .ok ([0], r) := by
+  simp [evalIdx, foldIdx, fold2, subscript]
   rfl
 
-/-- **read_targets_refines.**  The READ loop over a non-empty list of targets —
-    scalars and array cells in any mixture — is `readTargetsSpec`: the targets in
-    order, each one as `readScalarSpec` / `readCellSpec` says, the first failure
-    ending the statement. -/
-theorem read_targets_refines {p : RProgram3 F} (fuel : Nat) (rest : List (Token F)) (hE : StmtEnd rest) :
-    ∀ (ts : List (RTarget F)), ts ≠ [] → ∀ (k : Nat) (σ : St F) (r : RState3 F) (pre : List (Token F)),
-      Sync p r σ → (∀ t ∈ ts, TargetOK r.fns fuel σ.nesting t) → At σ pre (renderRTargets ts ++ rest) →
-      (renderRTargets ts).length < k →
-      ReadCellOK p σ pre (renderRTargets ts) rest (pure ()) (readLoop (evalN fuel) k σ)
-        (readTargetsSpec (allData3 p) r ts) := by
-  intro ts
-  induction ts with
-  | nil => intro h; exact absurd rfl h
-  | cons t ts' ih =>
-    intro _ k σ r pre hS hok hAt hk
-    obtain ⟨k', rfl⟩ : ∃ k', k = k' + 1 := ⟨k - 1, by omega⟩
-    rw [readLoop_body]
-    have hokt := hok t List.mem_cons_self
-    cases ts' with
-    | nil =>
-      have hAt0 : At σ pre (t.toks ++ rest) := hAt
-      have hO := read_target_refines hS fuel t pre rest hokt hAt0
-        (Stmt3L.stmtEnd_not hE (by decide) (by decide))
-        (accept .Comma >>= fun b => if b then readLoop (evalN fuel) k' else pure ())
-      have hsp : readTargetsSpec (allData3 p) r [t] =
-          match readTargetSpec (allData3 p) r t with
-          | (r', .next) => (r', .next)
-          | x => x := rfl
-      rw [hsp]
-      generalize readTargetSpec (allData3 p) r t = res at hO
-      obtain ⟨r', ctl⟩ := res
-      cases ctl with
-      | next =>
-        obtain ⟨τ, hres, hSτ, hstτ, hAtτ⟩ := hO
-        have hacc := accept_end (k := .Comma) hAtτ (Stmt3L.stmtEnd_not hE (by decide) (by decide))
-        refine ⟨mv τ 0 (τ.reads + 1), ?_, hSτ.mv 0 _, hstτ.trans (start_mv _ _ _), at_mv0 hAtτ _⟩
-        rw [hres, bind_ok hacc]
-        rfl
-      | error e => exact hO
-      | errorAt e ln => exact hO
-      | skipLine => trivial
-      | jump m => trivial
-      | stop => trivial
-      | resume a b => trivial
-    | cons t' ts'' =>
-      have hAt0 : At σ pre (t.toks ++ (.kw .Comma :: (renderRTargets (t' :: ts'') ++ rest))) := by
-        simpa only [renderRTargets, List.append_assoc, List.cons_append] using hAt
-      have hlen : (renderRTargets (t :: t' :: ts'')).length =
-          t.toks.length + 1 + (renderRTargets (t' :: ts'')).length := by
-        simp only [renderRTargets, List.length_append, List.length_cons]
-        omega
-      have hO := read_target_refines hS fuel t pre _ hokt hAt0 (toks_head_ne_paren t _)
-        (accept .Comma >>= fun b => if b then readLoop (evalN fuel) k' else pure ())
-      have hfns := readTargetSpec_fns (allData3 p) r t
-      have hsp : readTargetsSpec (allData3 p) r (t :: t' :: ts'') =
-          match readTargetSpec (allData3 p) r t with
-          | (r', .next) => readTargetsSpec (allData3 p) r' (t' :: ts'')
-          | x => x := rfl
-      rw [hsp]
-      generalize readTargetSpec (allData3 p) r t = res at hO hfns
-      obtain ⟨r', ctl⟩ := res
-      cases ctl with
-      | next =>
-        obtain ⟨τ, hres, hSτ, hstτ, hAtτ⟩ := hO
-        have hacc := accept_true (k := .Comma) hAtτ rfl
-        have hAt2 := at_mv1 hAtτ (τ.reads + 1)
-        have hst2 : Start σ (mv τ 1 (τ.reads + 1)) := hstτ.trans (start_mv _ _ _)
-        have hfns' : r'.fns = r.fns := hfns
-        have hI := ih (by simp) k' (mv τ 1 (τ.reads + 1)) r' _ (hSτ.mv 1 _)
-          (fun x hx => by
-            have := hok x (List.mem_cons_of_mem _ hx)
-            rw [hfns']
-            have hnn : (mv τ 1 (τ.reads + 1)).nesting = σ.nesting := hst2.kept.nesting
-            rw [hnn]; exact this)
-          hAt2 (by rw [hlen] at hk; omega)
-        have hrun : readBody (evalN fuel)
-            (accept .Comma >>= fun b => if b then readLoop (evalN fuel) k' else pure ()) σ =
-            readLoop (evalN fuel) k' (mv τ 1 (τ.reads + 1)) := by
-          rw [hres, bind_ok hacc]
-          rfl
-        rw [hrun]
-        dsimp only
-        generalize readTargetsSpec (allData3 p) r' (t' :: ts'') = res2 at hI ⊢
-        obtain ⟨r'', ctl2⟩ := res2
-        cases ctl2 with
-        | next =>
-          obtain ⟨τ2, hres2, hS2, hst3, hAt3⟩ := hI
-          refine ⟨τ2, hres2, hS2, hst2.trans hst3, ?_⟩
-          simpa only [renderRTargets, List.append_assoc, List.cons_append, List.nil_append] using hAt3
-        | error e => exact ⟨hI.1, hI.2.start hst2⟩
-        | errorAt e ln =>
-          obtain ⟨he, σ', i, h1, h2, h3, h4⟩ := hI
-          exact ⟨he, σ', i, h1, h2, h3.trans hst2.out, h4.trans hst2.kept.nesting⟩
-        | skipLine => trivial
-        | jump m => trivial
-        | stop => trivial
-        | resume a b => trivial
-      | error e => exact hO
-      | errorAt e ln => exact hO
-      | skipLine => trivial
-      | jump m => trivial
-      | stop => trivial
-      | resume a b => trivial
+def arrA : ArrayV Unit := .nums [11] (List.replicate 11 ())
+def arrB : ArrayV Unit := .strs [11] (['T'] :: List.replicate 10 [])
 
-#print axioms read_cell_refines
-#print axioms read_stmt_refines
-#print axioms read_targets_refines
+def r1 : RState3 Unit :=
+  { vars := [(nX, .str ['S'])], arrays := alSet nB arrB (alSet nA arrA []), data := 3, pc := some (0, 1) }
+def r2 : RState3 Unit := { r1 with out := [['T', 'S']], pc := some (10, 0) }
+def r3 : RState3 Unit := { r2 with pc := none }
+
+theorem data_prog : allData3 prog = [(10, .num ()), (10, .str ['S']), (10, .str ['T'])] := by
+  simp [allData3, prog, readStmt, printStmt, dataStmt, RStmt3.dataOf]
+
+theorem step1 : RStep3 prog (prog.start 0) = .inl r1 := by
+  have hex : readStmt.exec (allData3 prog) 0 0 (prog.start 0) = ({ r1 with pc := some (0, 0) }, .next) := by
+    rw [data_prog]
+    simp [readStmt, RStmt3.exec, readTargetsSpec, readTargetSpec, readCellSpec, readScalarSpec, idx0]
+    rfl
+  exact rstep3_next (ss := _) rfl rfl rfl hex
+
+theorem step2 : RStep3 prog r1 = .inl r2 := by
+  have h1 : evalE r1 (.cell nB [.num ()]) = .ok (.str ['T'], r1) := by
+    simp [evalE, fold2, foldIdx, subscript]
+    rfl
+  have h2 : evalE r1 (.var nX) = .ok (.str ['S'], r1) := by
+    simp [evalE, fold2]
+    exact ⟨rfl, rfl⟩
+  have hex : printStmt.exec (allData3 prog) 0 1 r1 = ({ r1 with out := r1.out ++ [['T', 'S']] }, .next) := by
+    simp only [printStmt, RStmt3.exec, printText3, h1, h2, valueText]
+    rfl
+  exact rstep3_next (ss := _) rfl rfl rfl hex
+
+theorem step3 : RStep3 prog r2 = .inl r3 := by
+  have hex : dataStmt.exec (allData3 prog) 10 0 r2 = (r2, .next) := rfl
+  exact rstep3_next (ss := _) rfl rfl rfl hex
+
+/-- the reference machine: three steps to the end; `A(0)`, `X$`, `B$(0)` read, `TS` printed -/
+theorem prog_ref : RSteps3 prog 3 (prog.start 0) = .inl r3 := by
+  simp only [RSteps3, step1, step2, step3]
+
+/-- by the theorems: the model ends idle, holding `X$ = "S"`, having printed `TS` -/
+example : ∃ k σ', k ≤ 4 ∧ runTurns defaultFuel k ({ lines := compileP3 prog } : St Unit) = .ok () σ' ∧
+    σ'.state = .idle ∧ σ'.vars = [(nX, .str ['S'])] ∧ (takeOutput σ').1 = [.print ['T', 'S']] := by
+  obtain ⟨k, σ', hk, hrun, hidle, hv, _, ho⟩ :=
+    run3_ends prog_fits (ready3_compile prog) (safeRun_of_static prog_static 0) 2 prog_ref rfl
+  exact ⟨k, σ', hk, hrun, hidle, hv, by rw [ho]; rfl⟩
+
+def progLines : Lines Unit :=
+  { map := [ (0, [.kw .Read, .symbol nA, .kw .LeftParen, .num (), .kw .RightParen, .kw .Comma, .symbol nX, .kw .Comma,
+                  .symbol nB, .kw .LeftParen, .num (), .kw .RightParen,
+                  .kw .Colon, .kw .Print, .symbol nB, .kw .LeftParen, .num (), .kw .RightParen, .kw .Semicolon,
+                  .symbol nX, .kw .Semicolon]),
+             (10, [.data [.num (), .str ['S'], .str ['T']]]) ],
+    sorted := [0, 10] }
+
+theorem prog_compile : compileP3 prog = progLines := by
+  simp [compileP3, prog, readStmt, printStmt, dataStmt, progLines, renderLine3, renderTail3, renderS3, renderItems3,
+    PItem3.render, render2, renderArgs, renderRTargets, RTarget.toks, cellToks]
+
+/-- … and by computation on the model -/
+example : outOf (runTurns defaultFuel 4 ({ lines := compileP3 prog } : St Unit)) = [.print ['T', 'S']] := by
+  rw [prog_compile]
+  decide +kernel
+
+end Demo4
+
 
 end Abasic.Props.C03
